@@ -11,6 +11,7 @@ search: the property's oracle (window / last-page flag / stability / no duplicat
 """
 import os
 import random
+import re
 import shutil
 import sys
 
@@ -31,6 +32,7 @@ class Gen:
     def __init__(self, rng):
         self.r = rng
         self.stats = {}
+        self.no_echo = False
 
     def count(self, k):
         self.stats[k] = self.stats.get(k, 0) + 1
@@ -58,7 +60,7 @@ class Gen:
         if k < 0.11:
             self.count("unique_null")
             return "U0", 0
-        if k < 0.2:
+        if k < 0.2 and not self.no_echo:
             self.count("echo")
             st = r.choice([0, 0, 1])
             return "E %s:0:4:%d:%d:-100" % (".".join(map(str, self.text())), st, st + r.choice([1, 2])), 1
@@ -83,9 +85,13 @@ class Gen:
         r = self.r
         ps = r.choice(PAGE_SIZES)
         nt = r.choice([0, 1, 1, 2, 2, 3, 4])
+        fs = r.choice(["-", "-", "u", "u", "u", "s", "x", "su", "us", "xu", "ux", "sxu", "uu", "xsu", "usx",
+                       "a", "b", "au", "au", "abu", "abu", "bau", "aus", "sau", "xabu", "ua", "ab", "asb", "abus"])
+        # two nested simplifiers: the model's inner simplifier replenishes one pull ahead of the code, which only
+        # EchoTranslation's test of "menu still empty" can observe - keep the echo translation out of these chains
+        self.no_echo = ("a" in fs and "b" in fs)
         specs = [self.spec(r.choice([0, 1, 2, 3])) for _ in range(nt)]
         total = sum(c for _, c in specs)
-        fs = r.choice(["-", "-", "u", "u", "u", "s", "x", "su", "us", "xu", "ux", "sxu", "uu", "xsu", "usx"])
         self.count("filters:" + fs)
         self.count("merged:%d" % nt)
         nops = r.choice([2, 4, 6, 8, 12])
@@ -199,13 +205,28 @@ def run_unit(ctx, rmodel, exe, ncases):
     cases = [g.case() for _ in range(ncases)]
     feed = "\n".join(c[0] for c in cases) + "\n"
     work = ctx.scratch("c04unit")
+    # the model's two simplifier dictionaries -> OpenCC text dictionaries + configs for the real Simplifier
+    rc0, dout, _ = vlib.sh2([rmodel], stdin="DICTS\n", timeout=60)
+    dicts = {}
+    for l in dout.split("\n"):
+        f = l.split()
+        if len(f) >= 3:
+            dicts.setdefault(f[0], []).append((int(f[1]), [int(x) for x in f[2:]]))
+    os.makedirs(os.path.join(work, "opencc"), exist_ok=True)
+    for nm, ents in dicts.items():
+        with open(os.path.join(work, "opencc", "fake_%s.txt" % nm), "w") as f:
+            for k, vs in ents:
+                f.write("%s\t%s\n" % (chr(k), " ".join(chr(v) for v in vs)))
+        with open(os.path.join(work, "opencc", "fake_%s.json" % nm), "w") as f:
+            f.write('{"name":"fake %s","segmentation":{"type":"mmseg","dict":{"type":"text","file":"fake_%s.txt"}},'
+                    '"conversion_chain":[{"dict":{"type":"text","file":"fake_%s.txt"}}]}' % (nm, nm, nm))
     rc, out, err = vlib.sh2([exe, "unit", work], stdin=feed, timeout=1500,
                             env={"ASAN_OPTIONS": "detect_leaks=0:abort_on_error=0", "UBSAN_OPTIONS": "print_stacktrace=1"})
     ilines = out.split("\n")
     rc2, mout, merr = vlib.sh2([rmodel], stdin=feed, timeout=900)
     mlines = mout.split("\n")
     stats = {"cases": len(cases), "mismatch": 0, "oracle_fail": 0, "with_uniquifier_last": 0, "with_uniquifier_then_single_char": 0, "dup_free_checked": 0,
-             "generator": g.stats}
+             "generator": g.stats, "simplifier_dicts": {k: len(v) for k, v in dicts.items()}}
     if rc != 0:
         n_done = len([l for l in ilines if l.strip()])
         ctx.violation("unit:harness-abort", "the unit harness ended abnormally (sanitizer report or crash) rc=%d" % rc,
@@ -234,7 +255,14 @@ def run_unit(ctx, rmodel, exe, ncases):
             ctx.violation("unit:%s:filters=%s" % (key, fs), "real Menu violates the property: " + what,
                           {"case": case, "impl": il, "model": ml, "cmd": "echo '<case>' | %s unit <workdir>" % exe,
                            "format": "ocaml/c04/driver.ml"}, found_input=True)
-        if il.split() != ml.split():
+        a_, b_ = il.split(), ml.split()
+        if re.search(r"u.*[ab]", fs):
+            # a simplifier above a uniquifier: the model replenishes the simplifier's queue as soon as it runs
+            # empty, the code at the next Peek; the uniquifier's rewrite of an EARLIER entry (merged-item count,
+            # quality) can therefore become visible one call earlier in the model.  Text/comment/type are compared.
+            a_ = [":".join(x.split(":")[:3]) if "=" in x else x for x in a_]
+            b_ = [":".join(x.split(":")[:3]) if "=" in x else x for x in b_]
+        if a_ != b_:
             mism.append((case, il, ml))
     stats["mismatch"] = len(mism)
     if mism:
